@@ -34,6 +34,15 @@ fn timings() -> Vec<Tm> {
     v
 }
 
+fn nd_timings() -> Vec<Tm> {
+    vec![
+        Tm { cycle: 0.3, delay: 0.0, rep: Rp::None, reverse: false },
+        Tm { cycle: 0.1, delay: 0.2, rep: Rp::Times(1), reverse: false },
+        Tm { cycle: 0.7, delay: 0.0, rep: Rp::None, reverse: true },
+        Tm { cycle: 0.1, delay: 0.0, rep: Rp::Times(2), reverse: false },
+    ]
+}
+
 const T2: Tm = Tm { cycle: 2.0, delay: 0.25, rep: Rp::None, reverse: false };
 
 fn t1(t: &Tm) -> CTimeline {
@@ -354,13 +363,38 @@ pub fn run(run: Run) -> ! {
     );
     let dev_apps = dev.apps;
     merge(&mut acc, dev);
+    // non-dyadic pass: totals that are not exactly representable, reached exactly by decimal frame deltas
+    // (100 ms and 50 ms are whole numbers of nanoseconds); controls {nothing, reset}
+    let nd_tms = nd_timings();
+    let nd_deltas = [0.0f64, 0.05, 0.1, 8.0];
+    let nd_depth = if thorough { 7 } else { 6 };
+    let mut nd_ctl: Vec<Vec<Ctl>> = vec![vec![]];
+    for _ in 0..nd_depth {
+        nd_ctl = nd_ctl.iter().flat_map(|h| [Ctl::Nothing, Ctl::Reset].into_iter().map(move |c| { let mut x = h.clone(); x.push(c); x })).collect();
+    }
+    let nd = par_fold(
+        4usize.pow(nd_depth as u32),
+        Acc::default,
+        |si, acc| {
+            let mut sched = vec![];
+            let mut c = si;
+            for _ in 0..nd_depth {
+                sched.push(nd_deltas[c % 4]);
+                c /= 4;
+            }
+            run_schedule(&sched, &nd_ctl, &nd_tms, (3u64 << 60) | (si as u64) << 40, acc);
+        },
+        merge,
+    );
+    let nd_apps = nd.apps;
+    merge(&mut acc, nd);
     let mut cov = Map::new();
     cov.insert("states".into(), json!(acc.entity_frames));
     cov.insert("transitions".into(), json!(acc.entity_frames));
     cov.insert("traces_validated_against_impl".into(), json!(acc.apps));
     cov.insert("evaluations".into(), json!(acc.rule_checks));
     cov.insert("distinct_nontrivial".into(), json!(acc.nontrivial));
-    cov.insert("rule".into(), json!(format!("real headless bevy App (AnimationPlugin<C>, hand-driven Time resource, single-threaded executor): ALL {} frame-delta schedules of length {} over {{0, 2^-9, 1/4, 8}} s x ALL {} per-entity control histories over {{nothing, disable, enable, reset, set_timeline(T2)}} (one control before each frame) x 12 timings (delay 0|1/2 x None|Times 1|Infinite x forward|reverse, cycle 1 s), one App per schedule hosting every (timing, control history) as its own entity; plus a deviation-bounded pass: default delta 1/4, all schedules of {} frames with <= {} deviations ({} schedules) x control histories with <= 1 control. Rules per entity-frame: R1 position += delta while Waiting/Playing and frozen when Ended; R2 state never moves backwards; R3 Waiting only while position < delay; R4 Ended iff position >= total (checked at the frame-start position); R5 never Ended when infinite; R6 Ended => component == terminal values; R7 Playing => component == timeline at the frame-start position; R8 disabled => nothing changes, no event; R9 exactly one event per state change carrying the final state, one Ended per run. non-trivial = entity-frames in which the state changed", nsched, depth, ctl_h.len(), horizon, k, dev_apps)));
+    cov.insert("rule".into(), json!(format!("real headless bevy App (AnimationPlugin<C>, hand-driven Time resource, single-threaded executor): ALL {} frame-delta schedules of length {} over {{0, 2^-9, 1/4, 8}} s x ALL {} per-entity control histories over {{nothing, disable, enable, reset, set_timeline(T2)}} (one control before each frame) x 12 timings (delay 0|1/2 x None|Times 1|Infinite x forward|reverse, cycle 1 s), one App per schedule hosting every (timing, control history) as its own entity; plus a deviation-bounded pass: default delta 1/4, all schedules of {} frames with <= {} deviations ({} schedules) x control histories with <= 1 control; plus a non-dyadic pass ({} schedules over deltas 0, 50 ms, 100 ms, 8 s x 4 timelines whose totals 0.3/0.4/0.7/0.3 s are not exactly representable x reset histories). Rules per entity-frame: R1 position += delta while Waiting/Playing and frozen when Ended; R2 state never moves backwards; R3 Waiting only while position < delay; R4 Ended iff position >= total (checked at the frame-start position); R5 never Ended when infinite; R6 Ended => component == terminal values; R7 Playing => component == timeline at the frame-start position; R8 disabled => nothing changes, no event; R9 exactly one event per state change carrying the final state, one Ended per run. non-trivial = entity-frames in which the state changed", nsched, depth, ctl_h.len(), horizon, k, dev_apps, nd_apps)));
     cov.insert("exhaustive".into(), json!(true));
     cov.insert("apps".into(), json!(acc.apps));
     cov.insert("events_observed".into(), json!(acc.events));
@@ -371,7 +405,8 @@ pub fn run(run: Run) -> ! {
 }
 
 pub fn replay(case: &Value) -> bool {
-    let tms = timings();
+    let mut tms = timings();
+    tms.extend(nd_timings());
     let tmj = &case["timing"];
     let ci = tms.iter().position(|t| t.json() == *tmj).unwrap_or(0);
     let sched: Vec<f64> = case["frame_deltas_s"].as_array().map(|a| a.iter().map(|x| x.as_f64().unwrap()).collect()).unwrap_or_default();
